@@ -917,6 +917,12 @@ def directed_personas(year, seed, n):
         p = plain_persona(year, 'S', round(r.uniform(2000, 6000), 2), key=f'direicinv:{seed}:{k}', n_int=1,
                           ints=[{'box_1': round(r.uniform(12000, 15000), 2), 'box_3': 0.0, 'box_4': 0.0, 'box_6': 0.0, 'box_8': 0.0, 'box_2': 0.0}])
         out.append(('F2e', p))
+        # the same kind of filer with an N.C. return and income below the N.C. standard deduction: N.C. taxable income and tax are
+        # zero, the questions of the D-400 (tax credits, ...) are asked all the same   (no random draw: later families do not shift)
+        cap_ = float(_stat.amount('eic_investment_cap', year, 'S'))
+        p = plain_persona(year, 'S', 300.0 + 10.0 * k, key=f'dirnczero:{seed}:{k}', n_int=1, nc=True,
+                          ints=[{'box_1': cap_ + 200.0, 'box_3': 0.0, 'box_4': 0.0, 'box_6': 0.0, 'box_8': 0.0, 'box_2': 0.0, 'box_17_1': 0.0}])
+        out.append(('F8z', p))
         # two employers, one paying above 200,000 (and withholding the additional 0.9 %) and one far below: Form 8959 with an excess
         p = plain_persona(year, 'S', [round(r.uniform(205000, 230000), 2), round(r.uniform(15000, 40000), 2)], key=f'dirtwoemp:{seed}:{k}')
         for d in p.w2:
